@@ -63,10 +63,15 @@ def _pins(nl, nr, K, W, l, r, m, s, p, q, p2, q2, none_class, none_class2):
             ok = ok and r[i] == 0 and s[i] == 0 and q[i] == 0 and q2[i] == 0
     if K < 2:
         ok = ok and m[0] == 0 and m[1] == 0 and m[2] == 0 and s[0] == 0 and s[1] == 0 and s[2] == 0 and none_class2 == -1
-    if W < 1:
+    if W < 1 and H.CONFIG.get('mode') != 'rejoin':
         ok = ok and p[0] == 0 and p[1] == 0 and p[2] == 0 and q[0] == 0 and q[1] == 0 and q[2] == 0
-    if W < 2:
+    if H.CONFIG.get('mode') == 'rejoin':
+        # p0 = side, q0 = row, x0 = new key class; everything else pinned
+        ok = ok and 0 <= p[0] <= 1 and 0 <= q[0] <= 2 and 0 <= p2[0] <= 3 and p[1] == 0 and p[2] == 0 and q[1] == 0 and q[2] == 0
+    if W < 2 and H.CONFIG.get('mode') != 'rejoin':
         ok = ok and p2[0] == 0 and p2[1] == 0 and p2[2] == 0 and q2[0] == 0 and q2[1] == 0 and q2[2] == 0
+    if H.CONFIG.get('mode') == 'rejoin':
+        ok = ok and p2[1] == 0 and p2[2] == 0 and q2[0] == 0 and q2[1] == 0 and q2[2] == 0
     return ok
 
 
@@ -126,6 +131,10 @@ def materialise(l0, l1, l2, r0, r1, r2, m0, m1, m2, s0, s1, s2, p0, p1, p2, q0, 
     if W >= 2:
         lcols.append([x0, x1, x2][:nl]); lnames.append('p')      # repeated payload name on the left
         rcols.append([y0, y1, y2][:nr]); rnames.append(None)     # unnamed payload on the right
+    for extra in range(c.get('Wr', 0)):
+        rcols.append([1000 + extra * 10 + j for j in range(nr)]); rnames.append('extra%d' % extra)      # right-only columns: the two sides differ in width
+    for extra in range(c.get('Wl', 0)):
+        lcols.append([2000 + extra * 10 + j for j in range(nl)]); lnames.append('lextra%d' % extra)
     # hidden row ids (last column of each side) so that the origin of every output row is observable
     lcols.append(list(range(nl))); lnames.append('lid')
     rcols.append(list(range(100, 100 + nr))); rnames.append('rid')
@@ -181,7 +190,13 @@ def h_join(l0: int, l1: int, l2: int, r0: int, r1: int, r2: int, m0: int, m1: in
     if H.skip(locals()): return True
     c = H.CONFIG
     args = (l0, l1, l2, r0, r1, r2, m0, m1, m2, s0, s1, s2, p0, p1, p2, q0, q1, q2, x0, x1, x2, y0, y1, y2, nc, nc2)
-    if c.get('mode') == 'contain':
+    if c.get('mode') == 'rejoin':
+        dom = [-1, 0, 1, 2, 3, 4, 5, 6]
+        conc = [H.among(dom, a) for a in args[:6]] + [0] * 18 + [-1, -1]
+        # the written cell: side (l2 slot re-used when nl < 3 is not possible, so extra symbolic picks ride on the unused payload slots)
+        c['_write'] = (H.among([0, 1], p0), H.among([0, 1, 2], q0), H.among([0, 1, 2, 3], x0))
+        r_ = H.concrete(_join_body, tuple(conc))
+    elif c.get('mode') == 'contain':
         # all values that matter here are key classes: let the solver pick them, then run the four joins natively
         dom = [-1, 0, 1, 2, 3, 4, 5, 6]
         conc = [H.among(dom, a) for a in args[:12]] + [0] * 12 + [H.among(dom, nc), H.among(dom, nc2)]
@@ -232,6 +247,26 @@ def _join_body(args):
     elif mode == 'card':
         why = check_card(kind, c['expect'], L, R, lo, ro, lkeys, rkeys, lrows, rrows, lnames, rnames)
         if why: return H.fail(why)
+    elif mode == 'rejoin':
+        # join, write a key cell in place (solver-chosen side, row and new key class), join again: the second call sees the new keys
+        expect = c.get('expect', 'many_to_many')
+        try:
+            call(kind, L, R, 'k', 'k', expect)
+        except Exception:
+            pass
+        side, row, newk = c['_write']
+        tbl, keys, rows_ = (L, lkeys, lrows) if side == 0 else (R, rkeys, rrows)
+        if row >= len(keys): return None
+        tbl[row, 'k'] = newk
+        keys[row] = (newk,)
+        rows_[row] = (newk,) + tuple(rows_[row][1:])
+        snapL = H.snap(L); snapR = H.snap(R)
+        if expect == 'many_to_many':
+            out = call(kind, L, R, 'k', 'k', expect)
+            why = check_rows(kind, out, lkeys, rkeys, lrows, rrows, lnames, rnames)
+        else:
+            why = check_card(kind, expect, L, R, 'k', 'k', lkeys, rkeys, lrows, rrows, lnames, rnames)
+        if why: return H.fail('after joining once and then writing key %r into row %d of the %s table: %s' % (newk, row, 'left' if side == 0 else 'right', why))
     else:
         raise ValueError(mode)
     if not H.snap_eq(snapL, H.snap(L)) or not H.snap_eq(snapR, H.snap(R)): return H.fail('an input table was modified')
